@@ -132,7 +132,7 @@ Idling == phase = "run" /\ run.kind = "idle"
 Ready == Idling /\ (B.lazy = 1 \/ pend.o = 0) /\ (Mode = "mc" => Len(hist) < B.depth)
 \* which call comes next: any (mc) / the one the script names
 Pick(op, o, j, x) ==
-  IF Mode = "mc" THEN TRUE
+  IF Mode = "mc" THEN op \in Range(B.ops)
   ELSE l <= Len(B.script) /\ B.script[l] = [op |-> op, o |-> o, j |-> j, x |-> x]
 Adv == l' = IF Mode = "mc" THEN l ELSE l + 1
 
